@@ -48,7 +48,7 @@ def tag(v):
     if isinstance(v, (list, tuple)):
         return {"k": "arr", "a": [tag(x) for x in v]}
     if isinstance(v, dict):
-        if "k" in v and v["k"] in ("null", "bool", "int", "float", "str", "arr", "obj", "file"):
+        if "k" in v and v["k"] in ("null", "bool", "int", "float", "str", "arr", "obj", "file", "fstr"):
             return v
         return {"k": "obj", "o": {k: tag(x) for k, x in v.items()}}
     raise TypeError(v)
@@ -73,8 +73,8 @@ def untag(v):
         if isinstance(o, list):      # ToJson of an empty function
             return {}
         return {kk: untag(x) for kk, x in o.items()}
-    if k == "file":
-        return {"#file": v}
+    if k in ("file", "fstr"):
+        return {"#file": "%s|%d|%s" % (v["p"], v["c"], v["n"])}
     raise TypeError(v)
 
 
@@ -126,6 +126,14 @@ def echo(src):
 
 
 INST = {"k": "inst"}
+FILE = {"k": "file"}        # a file the job writes (scalar file-typed output)
+FILES = {"k": "files"}      # an array of two files
+FMAP = {"k": "fmap"}        # a typed map of two files
+FSTR = {"k": "fstr"}        # a string holding the path of a file the job wrote
+FSTRUCT = {"k": "fstruct"}
+FMSTRUCT = {"k": "fmstruct"}  # a typed map of two structs {file f; int n}
+FASTRUCT = {"k": "fastruct"}  # an array of two such structs
+FDIR = {"k": "dir"}         # a directory (type path) with two files in it  # a struct {file f; int n}
 CI = {"k": "ci"}
 
 
@@ -144,7 +152,7 @@ def stage(name, ins, outs, rules, split=False, chunks=None, couts=None, crules=N
           "rules": [{"n": o["n"], "r": rules[o["n"]]} for o in outs],
           "split": bool(split),
           "chunks": chunks or {"k": "fixed", "c": 1},
-          "couts": [], "volatile": volatile or "", "retain": retain or []}
+          "couts": [], "volatile": volatile or "", "retain": list(retain or [])}
     if split:
         co = params(couts or "")
         st["couts"] = [{"n": o["n"], "t": o["t"], "r": (crules or {})[o["n"]]} for o in co]
@@ -318,7 +326,7 @@ def render(prog, stage_src="vstage", invocation=True, include_call=True, stage_l
         if pl.get("retain"):
             out.append("\n    retain (")
             for r in pl["retain"]:
-                out.append("        %s," % r)
+                out.append("        %s," % render_exp(r))
             out.append("    )")
         out.append("}\n")
     if include_call:
